@@ -2,7 +2,7 @@
 
 from . import excs
 
-DEST_EXCS = [excs.DestFault, excs.DestFaultBadStr, excs.BadStrRaisesBase, ValueError, KeyError, OSError, UnicodeError, excs.DeepUserError]
+DEST_EXCS = [excs.DestFault, excs.DestFaultBadStr, excs.BadStrRaisesBase, ValueError, KeyError, OSError, UnicodeError, excs.DeepUserError, excs.RemoteError]
 
 
 def gen_mask(rng, horizon):
